@@ -106,7 +106,10 @@ fn run_case(seed: u64, idx: u64) -> CaseOut {
     let mut co = CaseOut::held(0, true);
     // ---- construction: builder calls in a random order ----------------------------------------------
     let (mut tmpl, mut msg, mut prefix, mut tw) = (0usize, String::new(), String::new(), 8usize);
-    let target = if in_multi { ProgressDrawTarget::hidden() } else { ProgressDrawTarget::term_like(spy.boxed()) };
+    // a bar that is going to join a MultiProgress starts without a terminal; so does a quarter of the others
+    // (they get theirs through set_draw_target). Whatever is configured meanwhile must stick.
+    let hidden_start = in_multi || rng.chance(1, 4);
+    let target = if hidden_start { ProgressDrawTarget::hidden() } else { ProgressDrawTarget::term_like(spy.boxed()) };
     let mut pb = ProgressBar::with_draw_target(Some(10), target);
     let mut order: Vec<u8> = vec![0, 1, 2, 3];
     for i in (1..order.len()).rev() {
@@ -147,9 +150,48 @@ fn run_case(seed: u64, idx: u64) -> CaseOut {
         if use_finish {
             pb = pb.clone().with_finish(ProgressFinish::WithMessage(finish_msg.clone().into()));
         }
+        // ---- operations while the bar has no terminal: only the getters can be looked at -------------------
+        if hidden_start {
+            for _ in 0..rng.range(0, 3) {
+                match rng.below(4) {
+                    0 => {
+                        tw = *rng.pick(&WIDTHS);
+                        pb.set_tab_width(tw);
+                        history.push(format!("(hidden) set_tab_width({tw})"));
+                    }
+                    1 => {
+                        tmpl = rng.usize(TEMPLATES.len());
+                        pb.set_style(style_for(tmpl));
+                        history.push(format!("(hidden) set_style({:?})", TEMPLATES[tmpl]));
+                    }
+                    2 => {
+                        msg = text(&mut rng, "m");
+                        pb.set_message(msg.clone());
+                        history.push(format!("(hidden) set_message({msg:?})"));
+                    }
+                    _ => {
+                        prefix = text(&mut rng, "p");
+                        pb.set_prefix(prefix.clone());
+                        history.push(format!("(hidden) set_prefix({prefix:?})"));
+                    }
+                }
+                if pb.message() != expand(&msg, tw) || pb.prefix() != expand(&prefix, tw) {
+                    return Err(viol(
+                        "getter-not-expanded",
+                        vec!["getter".into(), "hidden-bar".into(), format!("tab-width-{tw}")],
+                        format!("on a bar without terminal, after {:?}: message() = {:?} / prefix() = {:?}, expected {:?} / {:?}", history.last(), pb.message(), pb.prefix(), expand(&msg, tw), expand(&prefix, tw)),
+                        J::from(history.clone()),
+                        replay.clone(),
+                    ));
+                }
+            }
+        }
         let mp = in_multi.then(|| MultiProgress::with_draw_target(ProgressDrawTarget::term_like(spy.boxed())));
         if let Some(mp) = &mp {
             pb = mp.add(pb.clone());
+        } else if hidden_start {
+            pb.set_draw_target(ProgressDrawTarget::term_like(spy.boxed()));
+            history.push("set_draw_target(terminal)".into());
         }
         let n = rng.range(1, 6);
         let mut ops = Vec::new();
@@ -411,7 +453,7 @@ pub fn run(cfg: &RunCfg) -> PropResult {
     };
     PropResult {
         report,
-        rule: "each evaluation: with_tab_width / with_style / with_message / with_prefix applied in a random order at construction, then 1-6 of set_tab_width / set_style (fresh style, or the bar's own style() with a new template) / set_message / set_prefix and a finish_with_message or a drop-style finish with WithMessage; tab widths {0,1,2,8,13}; texts with 0-10 tabs (leading, trailing, consecutive); tabs in template literals and in custom-key output; standalone and inside a MultiProgress; after every operation every write_str/write_line argument is scanned for TAB, the forced frame is compared with the model expansion and message()/prefix() with the expanded text; non-trivial = at least one text of the history contains a tab; concurrent lane: set_message/set_prefix/finish_with_message with a text whose Into<Cow<str>> conversion lets a second thread run set_tab_width inside the call, final texts and frame compared with the expansion at the new width".into(),
+        rule: "each evaluation: with_tab_width / with_style / with_message / with_prefix applied in a random order at construction, then 1-6 of set_tab_width / set_style (fresh style, or the bar's own style() with a new template) / set_message / set_prefix and a finish_with_message or a drop-style finish with WithMessage; tab widths {0,1,2,8,13}; texts with 0-10 tabs (leading, trailing, consecutive); tabs in template literals and in custom-key output; standalone and inside a MultiProgress; bars that join a MultiProgress (and a quarter of the others) are configured with 0-3 further operations while they have no terminal; after every operation every write_str/write_line argument is scanned for TAB, the forced frame is compared with the model expansion and message()/prefix() with the expanded text; non-trivial = at least one text of the history contains a tab; concurrent lane: set_message/set_prefix/finish_with_message with a text whose Into<Cow<str>> conversion lets a second thread run set_tab_width inside the call, final texts and frame compared with the expansion at the new width".into(),
         exhaustive: false,
     }
 }
